@@ -310,6 +310,15 @@ def run(ctx):
                         dp = os.path.join(tmp, "arc%d_d%d_%d.7z" % (si, fi, j))
                         open(dp, "wb").write(schedlib.damage_member(raw, folders[fi][j][1]))
                         variants.append(("crc@%d.%d" % (fi, j), {fi: ("crc", j)}, dp, None))
+                    if not copy_coded and (j == shape[fi] - 1 or rng.random() < 0.4):
+                        # a folder behind a native decoder: the member decodes to its right bytes and fails its own check
+                        try:
+                            dd = schedlib.damage_digest(raw, folders[fi][j][1])
+                            dp = os.path.join(tmp, "arc%d_g%d_%d.7z" % (si, fi, j))
+                            open(dp, "wb").write(dd)
+                            variants.append(("digest@%d.%d" % (fi, j), {fi: ("crc", j)}, dp, None))
+                        except AssertionError:
+                            pass
                     if j == shape[fi] - 1 or rng.random() < 0.5:
                         variants.append(("nowrite@%d.%d" % (fi, j), {fi: ("nowrite", j)}, path, folders[fi][j][0]))
             if k >= 3 and cs == "copy":
